@@ -19,6 +19,7 @@ CFG = dict(
         (S, 'find_first_of', 2, 'args:Str,unsigned long'): 'Str__find_first_of_d',
         (S, 'find_first_not_of', 2, 'args:Str,unsigned long'): 'Str__find_first_not_of_d',
         (S, 'find', 2, 'args:Str,unsigned long'): 'Str__find',
+        (S, 'find', 2, 'args:char,default'): 'Str__find_c',
         (S, 'find_last_of', 2, 'args:char*,default'): 'Str__find_last_of_lit',
         (S, 'find_last_of', 2, 'args:char,default'): 'Str__find_last_of_c',
         (S, 'operator+=', 1, 'args:char'): 'Str__op_pluseq_c',
@@ -30,12 +31,12 @@ CFG = dict(
         (DQ, 'erase', 1): 'Deq_Str__erase',
         ('ctor', S, 1, 'void (const char *, const std::allocator<char> &)'): 'Str__ctor_cstr',
     },
-    free={('count', 2): 'TextTools__count', ('isEmpty', 1): 'TextTools__isEmpty', ('isDecimalNumber', 1): 'TextTools__isDecimalNumber_c', ('isDecimalNumber', 3): 'TextTools__isDecimalNumber',
+    free={('count', 2): 'TextTools__count', ('hasSubstring', 2): 'TextTools__hasSubstring', ('isEmpty', 1): 'TextTools__isEmpty', ('isDecimalNumber', 1): 'TextTools__isDecimalNumber_c', ('isDecimalNumber', 3): 'TextTools__isDecimalNumber',
           ('isDecimalInteger', 2): 'TextTools__isDecimalInteger', ('stoi', 3): 'verif_stoi', ('stod', 2): 'verif_stod', ('stol', 3): 'verif_stoi', ('stoul', 3): 'verif_stoi', ('isdigit', 1): 'verif_isdigit', ('isspace', 1): 'verif_isspace',
           ('fromString', 1): [('int (const std::string &)', 'TextTools__fromString_int'), ('double (const std::string &)', 'TextTools__fromString_double')],
           ('operator==', S, 'char'): 'Str__eq_cstr', ('operator==', S, S): 'Str__eq', ('operator+', S, S): 'Str__concat'},
     consts={'npos': 'STR_NPOS'},
-    defaults={('verif_stoi', 1): '0', ('verif_stoi', 2): '10', ('verif_stod', 1): '0', ('Str__substr', 1): 'STR_NPOS', ('Str__find_last_of_lit', 1): 'STR_NPOS', ('Str__find_last_of_c', 1): 'STR_NPOS'},
+    defaults={('verif_stoi', 1): '0', ('verif_stoi', 2): '10', ('verif_stod', 1): '0', ('Str__substr', 1): 'STR_NPOS', ('Str__find_last_of_lit', 1): 'STR_NPOS', ('Str__find_last_of_c', 1): 'STR_NPOS', ('Str__find_c', 1): '0'},
     throws={'Str__substr', 'verif_stoi', 'verif_stod'},
 )
 STRUCTS = [ST, NST]
@@ -43,6 +44,7 @@ PRE_STRUCTS = r'''
 #include "str.h"
 #include "vec.h"
 VEC_DECL(Str, Deq_Str)
+VEC_DECL(Str, Vec_Str)
 '''
 PRELUDE = r'''
 static inline int verif_isdigit(int c) { return c >= '0' && c <= '9'; }
@@ -55,6 +57,11 @@ static inline Str *Str__op_assign_n(Str *s, const char *p, unsigned long n) { ve
 #else
 Str *Str__op_assign_n(Str *s, const char *p, unsigned long n)
   __CPROVER_requires(n < STR_CAP) __CPROVER_ensures(__CPROVER_return_value == s && s->n == n && __CPROVER_is_fresh(s->d, s->n + 1) && s->d[s->n] == 0) __CPROVER_assigns(s->d, s->n);
+#endif
+static inline unsigned long Str__find_c(const Str *s, char c, unsigned long pos) { char b[1]; b[0] = c; return Str__find_n(s, b, 1, pos); }
+#ifndef VERIF_MODE_BOUNDED
+/* TextTools::hasSubstring (std::search over the two strings): pure, value unspecified */
+_Bool TextTools__hasSubstring(const Str *s, const Str *pattern) __CPROVER_requires(1) __CPROVER_ensures(1) __CPROVER_assigns();
 #endif
 static inline unsigned long Str__find_last_of_c(const Str *s, char c, unsigned long pos) { char b[1]; b[0] = c; return Str__find_last_of_n(s, b, 1); }
 #ifdef VERIF_MODE_BOUNDED
@@ -115,7 +122,7 @@ int TextTools__fromString_int(const Str *s) __CPROVER_requires(1) __CPROVER_ensu
 double TextTools__fromString_double(const Str *s) __CPROVER_requires(1) __CPROVER_ensures(1) __CPROVER_assigns();
 #endif
 '''
-STUB_CONTRACTS = {'Str__find_first_of_d', 'Str__find_first_not_of_d', 'TextTools__count', 'Str__op_assign_n', 'verif_stoi', 'verif_stod', 'Deq_Str__erase', 'TextTools__isEmpty', 'TextTools__fromString_int', 'TextTools__fromString_double', 'Str__substr', 'Str__op_pluseq_c', 'Str__op_pluseq',
+STUB_CONTRACTS = {'TextTools__hasSubstring', 'Str__find_first_of_d', 'Str__find_first_not_of_d', 'TextTools__count', 'Str__op_assign_n', 'verif_stoi', 'verif_stod', 'Deq_Str__erase', 'TextTools__isEmpty', 'TextTools__fromString_int', 'TextTools__fromString_double', 'Str__substr', 'Str__op_pluseq_c', 'Str__op_pluseq',
                   'Str__find_first_of_n', 'Str__find_first_not_of_n', 'Str__find_n', 'Str__find_last_of_n', 'Str__make_copy', 'Str__ctor_copy',
                   'Str__concat', 'Str__eq', 'Str__eq_cstr', 'Str__make_cstr', 'Str__op_assign', 'Str__erase_range',
                   'Deq_Str__push_back'}
@@ -139,6 +146,15 @@ FUNCS = [
     dict(cname='TextTools__removeSubstrings3', qname='bpp::TextTools::removeSubstrings', sig='(const std::string &, char, char)',
          requires=['STR_OBJ(s)'], ensures=[LIB, 'verif_exc == 0 ==> __CPROVER_return_value.n <= s->n'], assigns=['verif_exc'],
          loops={1: dict(assigns='i, blockDepth, result.d, result.n, verif_exc', invariant=['i <= s->n', 'result.n <= i', 'blockDepth <= i', 'verif_exc == 0'], decreases='s->n - i')}),
+    dict(cname='TextTools__removeSubstrings5', qname='bpp::TextTools::removeSubstrings', sig='(const std::string &, char, char, std::vector<std::string> &, std::vector<std::string> &)',
+         requires=['STR_OBJ(s)', '__CPROVER_is_fresh(exceptionsBeginning, sizeof(Vec_Str)) && VEC_FRESH(exceptionsBeginning)', '__CPROVER_is_fresh(exceptionsEnding, sizeof(Vec_Str)) && VEC_FRESH(exceptionsEnding)'],
+         # only library exceptions: no substr beyond the end of the text whatever the exception strings are; the block counter does not overflow
+         ensures=[LIB], assigns=['verif_exc'],
+         mirror={'s': [('unsigned long', 'n')], 'exceptionsBeginning': [('unsigned long', 'n')], 'exceptionsEnding': [('unsigned long', 'n')]},
+         cex_requires=['s->n >= 3 && s->n <= 8 && exceptionsBeginning->n == 1 && exceptionsEnding->n == 0'],
+         loops={1: dict(assigns='i, blockCount, begPos, t.d, t.n, verif_exc', invariant=['i <= s->n', 'begPos <= i', 'blockCount >= 0 && (unsigned long)blockCount <= i', 'verif_exc == 0'], decreases='s->n - i'),
+                2: dict(assigns='j, except, verif_exc', invariant=['j <= exceptionsBeginning->n', 'verif_exc == 0'], decreases='exceptionsBeginning->n - j'),
+                3: dict(assigns='j, verif_exc', invariant=['j <= exceptionsEnding->n', 'verif_exc == 0'], decreases='exceptionsEnding->n - j')}),
 ]
 ONE_PAIR = [(r'Str__find_first_(?:not_)?of_d\(([^,]+,[^,]+),', 1, 'the delimiter-class ghost array needs one (string, set) pair per function')]
 TOK_OK = '__CPROVER_is_fresh(self, sizeof(StringTokenizer))'
@@ -231,7 +247,7 @@ FUNCS += [
 ]
 
 LEMMAS = []
-REPLAY = {'re:^p_NestedStringTokenizer__ctor_5': dict(adapter='c16_hang.cpp'), 'p_FileTools__getParent': dict(adapter='c16_text.cpp'), 'p_StringTokenizer__ctor_4': dict(adapter='c16_hang.cpp'), 'p_StringTokenizer__unparseRemainingTokens': dict(adapter='c16_text.cpp')}
+REPLAY = {'re:^p_NestedStringTokenizer__ctor_5': dict(adapter='c16_hang.cpp'), 'p_FileTools__getParent': dict(adapter='c16_text.cpp'), 'p_StringTokenizer__ctor_4': dict(adapter='c16_hang.cpp'), 'p_StringTokenizer__unparseRemainingTokens': dict(adapter='c16_text.cpp'), 'p_TextTools__removeSubstrings5': dict(adapter='c16_text.cpp')}
 TRUSTED = ['std::string modelled as bytes + length; searching/slicing members by contract (stubs/str.h); std::isdigit/isspace in the C locale']
 ASSUMPTIONS = ['strings shorter than 65536 bytes in the proofs (cap of the memory model; induction over the length, no unwinding)']
 NOT_DECIDED = ['entry points built on iostreams, std::map or STL algorithms with lambdas (listed in DESIGN.md C16)']
